@@ -43,3 +43,32 @@ package binary
 //@   ensures  w.offset == min(old(w.offset), size)
 //@   ensures  forall i int :: 0 <= i && i < min(size, old(len(w.buf))) ==> w.buf[i] == old(w.buf[i])
 //@   modifies &w.buf, &w.offset
+
+//@ # ---- Reader: ghost count of bytes actually obtained from the underlying io.Reader. Every
+//@ # method is io.ReadFull over a fixed request: success means exactly that many bytes arrived.
+//@ ghost SpecConsumed map[*Reader]int
+//@ trusted func (r *Reader) Uint8() (v uint8, err error)
+//@   ensures err == nil ==> SpecConsumed[r] == old(SpecConsumed[r]) + 1
+//@   ensures err != nil ==> SpecConsumed[r] >= old(SpecConsumed[r])
+//@   ensures forall x *Reader :: x != r ==> SpecConsumed[x] == old(SpecConsumed[x])
+//@   modifies SpecConsumed
+//@ trusted func (r *Reader) Uint32() (v uint32, err error)
+//@   ensures err == nil ==> SpecConsumed[r] == old(SpecConsumed[r]) + 4
+//@   ensures err != nil ==> SpecConsumed[r] >= old(SpecConsumed[r])
+//@   ensures forall x *Reader :: x != r ==> SpecConsumed[x] == old(SpecConsumed[x])
+//@   modifies SpecConsumed
+//@ trusted func (r *Reader) Uint64() (v uint64, err error)
+//@   ensures err == nil ==> SpecConsumed[r] == old(SpecConsumed[r]) + 8
+//@   ensures err != nil ==> SpecConsumed[r] >= old(SpecConsumed[r])
+//@   ensures forall x *Reader :: x != r ==> SpecConsumed[x] == old(SpecConsumed[x])
+//@   modifies SpecConsumed
+//@ trusted func (r *Reader) Read(data []byte) (n int, err error)
+//@   ensures 0 <= n && n <= len(data) && SpecConsumed[r] == old(SpecConsumed[r]) + n
+//@   ensures err == nil ==> n == len(data)
+//@   ensures forall x *Reader :: x != r ==> SpecConsumed[x] == old(SpecConsumed[x])
+//@   modifies SpecConsumed
+//@ # Reset starts a new input: nothing consumed yet
+//@ trusted func (r *Reader) Reset(reader io.Reader)
+//@   ensures SpecConsumed[r] == 0
+//@   ensures forall x *Reader :: x != r ==> SpecConsumed[x] == old(SpecConsumed[x])
+//@   modifies SpecConsumed
